@@ -248,7 +248,7 @@ def edge_betweenness_bin(G):
             V, = np.where(np.any(Gu[V, :], axis=0))
 
         if np.any(np.logical_not(D)):  # if some vertices unreachable
-            Q[:q], = np.where(np.logical_not(D))  # ...these are first in line
+            Q[:q + 1], = np.where(np.logical_not(D))  # ...these are first in line
 
         DP = np.zeros((n,))             # dependency
         for w in Q[:n - 1]:
